@@ -46,7 +46,7 @@ RecInit ==
   \E o \in RecoverChains, k \in {"unary", "client", "server", "bidi"}, p \in {"connect", "grpc", "grpcweb"},
      \* ("slice": a value that is not comparable / hashable; "struct": the recovery function answers with an error
      \*  that WRAPS its coded error)
-     v \in {"none", "fail", "nil", "error", "string", "struct", "slice", "bytes", "abort", "wrapabort"} : \E at \in Points(k) :
+     v \in {"none", "fail", "nil", "error", "string", "struct", "slice", "bytes", "int", "abort", "wrapabort"} : \E at \in Points(k) :
     InitWith([opts |-> o, side |-> "handler", shape |-> IF k = "unary" THEN "unary" ELSE "stream", kind |-> k,
               proto |-> p, panic |-> [value |-> v, at |-> at]])
 RecSpec == RecInit /\ [][Next]_vars
